@@ -3,6 +3,8 @@ package interp
 import (
 	"go/types"
 	"strings"
+
+	"verif/engine/sym"
 )
 
 // Third-party / environment functions replaced by nondeterministic or opaque stubs.
@@ -26,6 +28,60 @@ func addStubIntrinsics(t map[string]intrinsic) {
 			panic("ReverseProxy stub: ResponseWriter without WriteHeader")
 		}
 		return nil
+	}
+
+	// go-jose: parsing and cryptographic verification are cut at the token API. The harness
+	// publishes the (symbolic) claims and, per key id, whether the signature verifies with that
+	// key in package-level variables of the authenticators package.
+	const authn = "github.com/dadrus/heimdall/internal/rules/mechanisms/authenticators"
+	harnessGlobal := func(m *Machine, name string) Value {
+		g := m.lookupGlobal(authn, name)
+		if g == nil {
+			m.unsupported("go-jose stub: harness variable %s not found", name)
+		}
+		return m.load(m.global(g))
+	}
+	joseErr := func(m *Machine, msg string) Value {
+		et := m.lookupType("errors", "errorString")
+		cell := new(Value)
+		*cell = Struct{m.mkStr(msg)}
+		return Iface{T: types.NewPointer(et), V: cell}
+	}
+	t["(*github.com/go-jose/go-jose/v4/jwt.JSONWebToken).Claims"] = func(m *Machine, fr *frame, a []Value) Value {
+		keyItf := a[1].(Iface)
+		kp, ok := keyItf.V.(*Value)
+		if !ok || kp == nil {
+			return joseErr(m, "go-jose/go-jose: unsupported key type")
+		}
+		kid := (*kp).(Struct)[fieldIndex(keyItf.T, "KeyID")]
+		valid := harnessGlobal(m, "VerifJWTSigValid").(*MapV)
+		if i := m.mapFind(valid, kid); i < 0 || !m.branch(valid.Entries[i].V.(*sym.Term)) {
+			return joseErr(m, "go-jose/go-jose: error in cryptographic primitive")
+		}
+		for _, d := range variadicArgs(a[2]) {
+			di := d.(Iface)
+			cell := di.V.(*Value)
+			pt := di.T.Underlying().(*types.Pointer)
+			if _, isMap := pt.Elem().Underlying().(*types.Map); isMap {
+				m.store(cell, harnessGlobal(m, "VerifJWTMapClaims"))
+			} else {
+				m.store(cell, harnessGlobal(m, "VerifJWTClaims"))
+			}
+		}
+		return Iface{}
+	}
+	t["(*github.com/go-jose/go-jose/v4/jwt.JSONWebToken).UnsafeClaimsWithoutVerification"] = func(m *Machine, fr *frame, a []Value) Value {
+		for _, d := range variadicArgs(a[1]) {
+			di := d.(Iface)
+			cell := di.V.(*Value)
+			pt := di.T.Underlying().(*types.Pointer)
+			if _, isMap := pt.Elem().Underlying().(*types.Map); isMap {
+				m.store(cell, harnessGlobal(m, "VerifJWTMapClaims"))
+			} else {
+				m.store(cell, harnessGlobal(m, "VerifJWTClaims"))
+			}
+		}
+		return Iface{}
 	}
 
 	// CEL: cel-go is cut below heimdall's cellib.CompiledExpression. Compilation keeps the
